@@ -48,6 +48,7 @@ type EQuant struct {
 	All  bool
 	Vars []QVar
 	Body Expr
+	Trig [][]Expr // optional explicit trigger sets: forall x T {e1, e2} {e3} :: body
 }
 type ECond struct{ C, A, B Expr }
 type ELet struct {
@@ -87,6 +88,8 @@ type Contract struct {
 	ParamNames []string // names for the parameters of function-typed fields / unnamed signatures
 	Invokes  []string  // function-typed parameters the function calls at most once (higher-order protocol)
 	Callback []*Clause // assumed after every dynamic (user callback) call inside the function (A-user)
+	CallSites map[string][]*Clause // callsite KEY requires EXPR: checked at every call of KEY made by this function (callee parameters are named a_<param>)
+	CallbackPure []string // function-typed parameters whose calls are assumed to have no side effects (A-user; listed in the evidence)
 	File     string
 	Line     int
 	HasPanicsNever bool
@@ -362,9 +365,24 @@ func (p *parser) expr() Expr {
 			}
 			break
 		}
+		var trig [][]Expr
+		for p.isOp("{") {
+			p.next()
+			var set []Expr
+			for {
+				set = append(set, p.expr())
+				if p.isOp(",") {
+					p.next()
+					continue
+				}
+				break
+			}
+			p.expectOp("}")
+			trig = append(trig, set)
+		}
 		p.expectOp("::")
 		body := p.expr()
-		return &EQuant{all, vs, body}
+		return &EQuant{all, vs, body, trig}
 	}
 	if p.isID("let") {
 		p.next()
@@ -578,7 +596,7 @@ var clauseKeywords = map[string]bool{
 	"modifies": true, "loop": true, "panics": true, "trusted": true, "lemma": true,
 	"axiom": true, "inline": true, "returns": true, "props": true, "noframe": true,
 	"K": true, "F": true, "guarded": true, "hyp": true, "concl": true, "vars": true,
-	"opaque": true, "uninterp": true, "witness": true, "skip": true, "callback": true, "invokes": true, "params": true,
+	"opaque": true, "uninterp": true, "witness": true, "skip": true, "callback": true, "invokes": true, "params": true, "callsite": true,
 }
 
 type rawLine struct {
@@ -730,12 +748,33 @@ func readSpecFile(path string) (*SpecFile, error) {
 				return nil, fail(rl, "invokes outside func")
 			}
 			cur.Invokes = append(cur.Invokes, strings.Fields(strings.ReplaceAll(rest, ",", " "))...)
+		case "callsite":
+			if cur == nil {
+				return nil, fail(rl, "callsite outside func")
+			}
+			k := strings.Index(rest, " requires ")
+			if k < 0 {
+				return nil, fail(rl, "callsite KEY requires EXPR")
+			}
+			c, err := mk("callsite", rest[k+len(" requires "):])
+			if err != nil {
+				return nil, err
+			}
+			if cur.CallSites == nil {
+				cur.CallSites = map[string][]*Clause{}
+			}
+			ck := strings.Trim(strings.TrimSpace(rest[:k]), "\"")
+			cur.CallSites[ck] = append(cur.CallSites[ck], c)
 		case "callback":
 			if cur == nil {
 				return nil, fail(rl, "callback outside func")
 			}
+			if strings.HasPrefix(rest, "pure ") {
+				cur.CallbackPure = append(cur.CallbackPure, strings.Fields(strings.TrimPrefix(rest, "pure "))...)
+				continue
+			}
 			if !strings.HasPrefix(rest, "ensures ") {
-				return nil, fail(rl, "callback ensures EXPR")
+				return nil, fail(rl, "callback ensures EXPR | callback pure PARAM")
 			}
 			c, err := mk("callback", strings.TrimPrefix(rest, "ensures "))
 			if err != nil {
